@@ -2623,6 +2623,10 @@ class AggregateBase(UnitsManaged, Saveable, OpenSystem):
             for i in range(start, dim):
                 ens[i-start] = numpy.real(HH[i,i] - subtract[i-start])
 
+            # energies are counted from the lowest one so that Boltzmann
+            # factors of optical energies do not all underflow to zero
+            ens = ens - numpy.amin(ens)
+
             ne = numpy.exp(-ens/kBT)
             sne = numpy.sum(ne)
             rho0_diag = ne/sne
